@@ -128,8 +128,33 @@ def run(tier, seed, rng):
             for body in (b'\x01\x02\x03', b'\x80\x00\x7f', b'ab;', b';;;', b'a;b'):
                 G.add_unpack(0, bytes([k]) + body * 3 + b'\x09', 0, record=True)
         groups.append(G)
+    # ---- one table of selectable FIELDS shared by several references (the selector hands out the SAME Field instance to each): what each
+    # reference parsed is re-emitted under its own name, in place
+    ssrc = ("TABLE = {1: Int(1), 2: Data(2), 3: Int(2)}\n"
+            "class Two(Packet):\n    k = Int(1)\n    j = Int(1)\n    src = Ref(k.chooses(TABLE), default=0)\n    dst = Ref(j.chooses(TABLE), default=0)\n"
+            "class TwoL(Packet):\n    __bisturi__ = {'generate_for_pack': False, 'generate_for_unpack': False}\n    k = Int(1)\n    j = Int(1)\n"
+            "    src = Ref(k.chooses(TABLE), default=0)\n    dst = Ref(j.chooses(TABLE), default=0)\n"
+            "class Many(Packet):\n    k = Int(1)\n    one = Ref(k.chooses(TABLE), default=0)\n    xs = Ref(k.chooses(TABLE), default=0).repeated(count=2)\n    t = Int(1)\n"
+            "class Other(Packet):\n    k = Int(1)\n    body = Ref(k.chooses(TABLE), default=0)\n    z = Int(1)\n")
+    senc = {1: lambda v: bytes([v]), 2: lambda v: v, 3: lambda v: v.to_bytes(2, 'big')}
+    svals = {1: [5, 6, 7], 2: [b'ab', b'cd', b'ef'], 3: [258, 772, 1286]}
+    scases = []
+    for k in (1, 2, 3):
+        for j in (3, 1, 2, k):
+            for cls in ('Two', 'TwoL'):
+                scases.append(dict(cls=cls, op='roundtrip', raw=(bytes([k, j]) + senc[k](svals[k][0]) + senc[j](svals[j][1])).hex(), offset=0))
+        scases.append(dict(cls='Other', op='roundtrip', raw=(bytes([k]) + senc[k](svals[k][2]) + b'\x09').hex(), offset=0))
+    for k in (2, 1, 3, 1):
+        a, x0, x1 = svals[k]
+        scases.append(dict(cls='Many', op='roundtrip', raw=(bytes([k]) + senc[k](a) + senc[k](x0) + senc[k](x1) + b'\x09').hex(), offset=0))
+    sres = run_impl(os.path.join(VERIF, 'harness', 'impl_pkt.py'), dict(header=decl.HEADER_PY, blocks=[dict(name='shared', src=ssrc)], modname='c01s', cases=scases))
+    shared_failures = []
+    for c, o in zip(scases, sres['outcomes']):
+        if 'ok' not in o or o.get('end') != len(c['raw']) // 2 or o.get('packed') != {'ok': c['raw']}:
+            shared_failures.append(dict(kind='oracle', sig='roundtrip-shared-table', what=f"references sharing one table of selectable fields: unpack succeeded but pack() gives {o.get('packed')} instead of the parsed bytes {c['raw']}" if 'ok' in o else f"the input {c['raw']} does not parse: {o}",
+                                        classes=ssrc, cls=c['cls'], raw=c['raw'], offset=0, observed=o))
     records, disagreements = pktcases.run_groups(groups, 'c01')
-    failures = []
+    failures = list(shared_failures)
     dist = dict(parsed=0, exact_checked=0, weak_checked=0, with_holes=0, offset_nonzero=0, pack_error_on_overlap=0)
     passed0 = {}
     rts = [r for r in records if r['kind'] == 'roundtrip' and 'ok' in r['outcome']]
